@@ -2,10 +2,11 @@
 from fractions import Fraction
 import math, struct
 import common as C
+import zigtie
 
 ID = "C15"
 LEVEL = "proof"
-COQ_HEADER = "From MiniMcmc Require Import Model.Density Model.Proposal."
+COQ_HEADER = "From MiniMcmc Require Import Model.Density Model.Proposal Model.Ziggurat."
 RULE = ("public trait methods of Gaussian2D (logp, unnorm_logp), DiffableGaussian2D (batched and single-point log-density, "
         "gradient through autodiff), Rosenbrock2D (batched/single/gradient), RosenbrockND (d<=32) and IsotropicGaussian (logp in "
         "both argument orders, unnorm_logp, set_seed reproducibility, sample moments) for random means, SPD covariances with "
@@ -153,7 +154,23 @@ def coq_term(case, out):
         tb = (lambda b: C.float_to_f32_bits(bf(b))) if f == "f32" else (lambda b: b)
         parts.append("%s 3%%nat %d %s %s" % ("iso_samples32" if f == "f32" else "iso_samples64", tb(case["sigma"]),
                                              C.zlist([tb(b) for b in out["normals"]]), C.zlist([tb(b) for b in case["from"]])))
+        zg = zig_plan(case, out)
+        if zg:
+            parts.append(zigtie.term(case["seed"], zg))
     return " ++ ".join("(%s)" % q for q in parts)
+
+
+_zig_cache = {}
+
+
+def zig_plan(case, out):
+    """the standard-normal draws of the proposal's seeded generator from the seed alone (Model.Ziggurat)"""
+    if case["op"] != "iso" or "normals" not in out or "seed" not in case:
+        return None
+    key = (case["seed"], case["f"], len(out["normals"]))
+    if key not in _zig_cache:
+        _zig_cache[key] = zigtie.prepare(case["f"], case["seed"], [0] * len(out["normals"]))
+    return _zig_cache[key]
 
 
 def ival(model, pos):
@@ -193,6 +210,11 @@ def compare(case, out, model):
         return "implementation panicked: " + out["panic"]
     if model is None:
         return None
+    model, zm = zigtie.split(model)
+    if zm is not None:
+        r = zigtie.check(case["f"], case["seed"], zig_plan(case, out), out["normals"], zm)
+        if r:
+            return "IsotropicGaussian generator stream: " + r
     return check(case, out, model, "model")
 
 
@@ -375,7 +397,8 @@ def extra(cases, outs, model):
     for c in cases:
         k = c["op"] + "/" + c["f"]
         ops[k] = ops.get(k, 0) + 1
-    return {"operations": ops}
+    zn = sum(len(zig_plan(c, o)["kinds"]) for c, o in zip(cases, outs) if isinstance(o, dict) and zig_plan(c, o))
+    return {"operations": ops, "variates_computed_in_coq_from_seed": zn}
 
 
 def corrupt(model):
